@@ -8,7 +8,7 @@ from . import common as C
 from . import render as R
 
 BASE_CONSTS = {
-    "Strict": "TRUE", "EnvVars": "<- NoEnv", "Deviations": "{}",
+    "Strict": "TRUE", "EnvVars": "<- NoEnv", "EnvNames": "<- NoEnvNames", "Deviations": "{}",
     "KnownDevs": '{"TupleEqUnordered", "AndOrRightUnchecked"}',
     "Fam": "<- FamOps", "LitPool": "<- LitsSmall", "Names": "<- NamesTop", "ModNames": "<- NamesMod",
     "FldNames": "<- Flds3", "KeyPool": "<- Keys", "SigPool": "<- Sigs", "TplPool": "<- Tpls",
